@@ -322,6 +322,7 @@ SPECIAL_DOCS = [
     "{a: 2001-01-01, b: 0x10, c: 1_000, d: 1e3, e: ~}",
     "[{name: one, val: 1}, {name: two, val: 2}, {name: three, val: 3, sub: {name: deep}}]",
     "{true: 1, 1.5: 2, null: 3, 2: 4}",
+    "a: &x true\nb: *x\nc: [*x, false, &y 1, *y]\n",
 ]
 
 INDEXES = ["0", "1", "-1", "2", "-2", "-3", "5", "-9"]
